@@ -19,8 +19,8 @@ from . import common, pipecheck, scenes
 LABELINGS = ['shuffled', 'offset', 'float', 'string', 'concat_repeats', 'all_equal', 'random_repeats', 'negative', 'sorted_repeats',
              'timestamp']
 LAYOUTS = ['col_perm', 'extra_cols', 'dtype_obj_ceilo', 'dtype_int_dt', 'dtype_int_height', 'dtype_float_type',
-           'dtype_int8_type', 'dtype_object_all']
-RENAMINGS = ['reverse_order', 'ten_nine', 'substring', 'whitespace', 'long', 'unicode', 'empty_ish', 'swap', 'concat_collision', 'concat_collision']
+           'dtype_int8_type', 'dtype_object_all', 'objint_ceilo', 'objint_ceilo']
+RENAMINGS = ['reverse_order', 'ten_nine', 'substring', 'whitespace', 'long', 'unicode', 'empty_ish', 'swap', 'concat_collision', 'concat_collision', 'escapes', 'escapes']
 
 
 def observe(obs):
@@ -90,6 +90,13 @@ def relayout(df, how, rng):
         out['quality'] = np.arange(len(out)) * 0.5
     elif how == 'dtype_obj_ceilo':
         out['ceilo'] = out['ceilo'].astype(object)
+    elif how == 'objint_ceilo':
+        # an object column whose elements are Python ints (station numbers), or ints and strs mixed: the checker
+        # turns them into the same strings
+        if all(str(c).isdigit() and str(int(c)) == str(c) for c in out['ceilo']):
+            mixed = rng.random() < 0.5
+            out['ceilo'] = pd.Series([(int(c) if not (mixed and int(c) % 2 == 1) else str(c)) for c in out['ceilo']],
+                                     dtype=object, index=out.index)
     elif how == 'dtype_int_dt':
         if (out['dt'] == out['dt'].round()).all():
             out['dt'] = out['dt'].astype('int64')
@@ -150,6 +157,10 @@ def rename_map(names, how, rng, rows=None):
         new = [('ceilometer-%d-' % i) * 20 for i in range(len(names))]
     elif how == 'unicode':
         new = ['Zürich-%d ☁' % i for i in range(len(names))]
+    elif how == 'escapes':
+        pool = ['LSZH\\north', 'a\\tb', 'rwy\\16', 'x"y', "it's", 'a b', 'a;b', '{c}', '%s', '$(x)', 'a`b', 'c == d', 'é\\u00e9', '@e', '#f',
+                'None', 'nan', 'True', '1e3', '0x10', '-1', ' ', '\\']
+        new = rng.sample(pool, len(names)) if len(names) <= len(pool) else [f'n\\{i}' for i in range(len(names))]
     elif how == 'empty_ish':
         new = ['' if i == 0 else chr(0x200b) * i for i in range(len(names))]
     else:
@@ -175,6 +186,10 @@ def _work(args):
         # the time axis is relative to an arbitrary reference: scenes whose last measurement is at dt = 0 or later
         shift = rng.choice([0.0, 60.0, 450.0]) - max(r[1] for r in rows)
         rows = [(c, float(dt + shift), h, t) for c, dt, h, t in rows]
+    if prop == 'C10' and rng.random() < 0.4 and 'EXCLUDE_FOR_BASE_HEIGHT_CALC' not in prms:
+        names = sorted({r[0] for r in rows})
+        if len(names) > 1:
+            prms = dict(prms, EXCLUDE_FOR_BASE_HEIGHT_CALC=[rng.choice(names)])
     if prop == 'C16' and rng.random() < 0.6 and fam != 'owned':
         names = sorted({r[0] for r in rows})
         prms = dict(prms)
